@@ -1,10 +1,11 @@
 SPECIFICATION Spec
 CONSTANTS
-  Sel = {"esc", "dol1", "dol2", "til", "pg", "call"}
+  Sel = {"esc", "dol1", "dol2", "til", "pg", "call", "mix"}
   N = 4
   N1 = 5
   N2 = 3
   NCall = 4
+  NMix = 3
   Limit = 3
   NameMax = 127
   AppName <- AppNameMC
